@@ -115,8 +115,9 @@ def simpler(step):
         for key in ("include_first", "include_last", "grid"):
             if key in step:
                 var(**{key: _DEL})
-    if k == "solver" and step.get("opts"):
-        var(opts={})
+    if k == "solver" and step.get("opts") and step.get("name") == "ipopt":
+        # keep an iteration cap: real solves must stay bounded
+        var(opts={"ipopt.print_level": 0, "print_time": False, "ipopt.max_iter": min(3, step["opts"].get("ipopt.max_iter", 3))})
     if k == "solve":
         if step.get("mode") == "real":
             var(mode=_DEL)
